@@ -554,8 +554,16 @@ def service_rows(draw, roadm_sites, loose_values=(None, 'yes', 'Yes', 'YES', 'no
             k = draw(st.integers(1, min(3, len(roadm_sites))))
             hops = draw(st.permutations(roadm_sites))[:k]
             style = draw(st.sampled_from(['city', 'uid', 'mixed']))
-            row['path'] = ' | '.join((h if h in by_city and (style == 'city' or (style == 'mixed' and j % 2))
-                                      else f'roadm {h}') for j, h in enumerate(hops))
+            typed = [(h if h in by_city and (style == 'city' or (style == 'mixed' and j % 2)) else f'roadm {h}')
+                     for j, h in enumerate(hops)]
+            if row['loose'] != 'no' and draw(st.integers(0, 2)) == 0:
+                # a loose route may name things that cannot be used as constraints (a place that is not in the Nodes sheet,
+                # a transceiver): they are skipped, the rest of the route is kept (correct_xls_route_list)
+                other = [x for x in roadm_sites if x not in (src, dst)]
+                bad = draw(st.sampled_from(['Atlantis', 'roadm Atlantis'] + ([f'trx {other[0]}'] if other else [])))
+                typed.insert(draw(st.integers(0, len(typed))), bad)
+                row['unusable'] = bad
+            row['path'] = ' | '.join(typed)
         rows.append(row)
     return rows
 
